@@ -24,7 +24,8 @@ RULE = ("llr<T,L>(x) for T in {float,double}, L in {2,3,4}: every table threshol
         "that |x| < 8, 30% uniform bit patterns (10^5 float/width 4 quick, 10^6 thorough; fewer for the other configurations); "
         "C++ sweeps over contiguous bit-pattern ranges (2^13 patterns around every threshold and special value quick; all 2^32 "
         "float patterns for widths 2,3,4 thorough; 2^21 patterns around every double threshold thorough).  A case is "
-        "non-trivial unless it is a NaN; distinct by (type,width,bit pattern).")
+        "non-trivial unless it is a NaN; distinct by (type,width,bit pattern).  distinct_nontrivial counts the llr cases only; the "
+        "patterns of the C++ sweeps are added to evaluations but not to distinct_nontrivial (conservative).")
 ASSUMPTIONS = ["model = hand-written ImplLLR.v (SpecFloat IEEE operations, proved equal to Flocq's Bplus/Bminus/Bdiv/binary_normalize "
                "by c12_model_is_flocq_ieee); tie = table dump of detail::make_llr_map + differential run of llr() on the cases of this run",
                "the compile-time table (GCC constant evaluation) is the one llr() uses; the harness also evaluates make_llr_map at run "
@@ -444,7 +445,9 @@ def run(ctx):
         ctx.coverage["cpp_sweep_ranges"] = len(jobs)
         ctx.count("swept-bit-patterns", sum(s["checked"] for s in summary.values()))
         if thorough:
-            ctx.coverage["exhaustive"] = "all 2^32 float bit patterns for widths 2,3,4 through llr<float,L> against the C++ oracle"
+            ctx.coverage["exhaustive"] = True
+            ctx.coverage["exhaustive_scope"] = ("all 2^32 float bit patterns for widths 2,3,4 through llr<float,L> against the C++ oracle; "
+                                                "double: neighbourhoods only (the proof covers every binary64)")
         f4 = summary.get("float/4")
         if f4:
             ctx.sample({"sweep": "llr<float,4>", "checked": f4["checked"], "failing": f4["bad"]})
